@@ -290,6 +290,11 @@ func (txn *writeTxnState) delete(meta TableMeta, guard revisionGuard, data any) 
 		return object{}, false, nil
 	}
 
+	// From here on use the key of the stored object: [data] belongs to the caller
+	// and is not an inserted (immutable) object, so the bytes of its key must not
+	// be retained by the graveyard (or by the primary index on revert below).
+	idKey = idIndex.objectToKey(obj)
+
 	// For CompareAndDelete() validate against guard revision and if there's a mismatch,
 	// revert the change.
 	if guard.enabled {
